@@ -6,7 +6,6 @@ import (
 	"sort"
 	"strings"
 	"testing"
-	"testing/synctest"
 )
 
 // C18: back-end failures never panic, fake success or weaken security state.
@@ -175,7 +174,7 @@ func c18RunSide(t *testing.T, plan Plan, dg *digester, label string) (side c18Si
 				hp = r
 			}
 		}()
-		synctest.Test(t, func(t *testing.T) {
+		bubble(t, func(t *testing.T) {
 			w := NewWorld(t, plan.Cfg, plan.Seed, false)
 			defer w.Close()
 			defer func() { w.sched.afterRequest(w) }()
